@@ -11,7 +11,7 @@ fi
 ./check --build || exit 2
 for seed in $1; do
   for id in $2; do
-    out=$(VERIF_SEED=$seed ./check "$id" quick 2>&1); rc=$?
+    out=$(VERIF_SEED=$seed ./check "$id" "${SOAK_TIER:-quick}" 2>&1); rc=$?
     echo "seed=$seed $id rc=$rc $(echo "$out" | tail -1)"
     if [ $rc -ne 0 ]; then echo "$out" | grep -a -E "VIOLATION|rule:|HARNESS|KNOWN" -A 3 | head -30; fi
   done
